@@ -49,6 +49,11 @@ class HarnessError(Exception):
     """A failure of the machinery, never reported as a violation or a pass"""
 
 
+class HarnessTimeout(BaseException):
+    """Wall-clock backstop fired (BaseException so that asyncio's callback
+       wrapper cannot swallow it)"""
+
+
 def real_now():
     from . import seams
     return seams.REAL_MONOTONIC()
@@ -67,7 +72,7 @@ def run_guarded(mod, plan, sched_seed=None, sched_replay=None, wall=60):
     """run_plan with a wall-clock backstop; a timeout is a harness error"""
 
     def on_alarm(signum, frame):
-        raise HarnessError('harness-timeout: run exceeded %ds wall' % wall)
+        raise HarnessTimeout()
 
     old = signal.signal(signal.SIGALRM, on_alarm)
     signal.alarm(wall)
@@ -75,6 +80,11 @@ def run_guarded(mod, plan, sched_seed=None, sched_replay=None, wall=60):
     try:
         return mod.run_plan(plan, sched_seed=sched_seed,
                             sched_replay=sched_replay)
+    except HarnessTimeout:
+        from . import seams
+        seams.leave()
+        raise HarnessError('harness-timeout: run exceeded %ds wall' %
+                           wall) from None
     finally:
         signal.alarm(0)
         signal.signal(signal.SIGALRM, old)
@@ -207,21 +217,25 @@ def _generic_plan_candidates(plan):
                     yield cand
 
 
-def shrink(mod, plan, sched, cls, budget_runs=400, budget_s=90):
+def shrink(mod, plan, sched, cls, budget_runs=300, budget_s=40):
     """Minimise (plan, sched) while a violation of class `cls` persists.
        Returns (plan, sched, result) re-recorded from an actual run."""
 
     t_end = real_now() + budget_s
     runs = [0]
+    valid = getattr(mod, 'valid_plan', None)
 
     def attempt(p, s):
         if runs[0] >= budget_runs or real_now() > t_end:
             return None
 
+        if valid is not None and not valid(p):
+            return None
+
         runs[0] += 1
 
         try:
-            res = run_guarded(mod, p, sched_replay=s, wall=30)
+            res = run_guarded(mod, p, sched_replay=s, wall=15)
         except Exception: # pylint: disable=broad-except
             return None
 
@@ -346,7 +360,9 @@ def match_known(known, violation):
 # -- replay files -----------------------------------------------------------------------
 
 def write_replay(mod, check_name, seed, plan, sched, res, cls, shrink_runs):
-    d = os.path.join(VERIF, 'replays')
+    d = os.path.join(VERIF, 'replays', 'audit') \
+        if os.environ.get('VERIF_NO_EVIDENCE') \
+        else os.path.join(VERIF, 'replays')
     os.makedirs(d, exist_ok=True)
     body = {'property': mod.ID, 'check': check_name, 'seed': seed,
             'class': cls,
@@ -481,7 +497,7 @@ def run_batch(check_name, tier, base_seed, budget_s, workers, selftest_n):
                 if agg['harness'] and not harness:
                     harness = agg['harness']
 
-            stop = harness or len(fails) >= 4 or \
+            stop = harness or len(fails) >= 3 or \
                 real_now() - t0 > budget_s or \
                 (max_runs and total['runs'] >= max_runs)
 
@@ -656,10 +672,12 @@ def main(argv=None):
         'violations': len(reported),
     }
 
-    os.makedirs(os.path.join(VERIF, 'evidence'), exist_ok=True)
+    if not os.environ.get('VERIF_NO_EVIDENCE'):
+        os.makedirs(os.path.join(VERIF, 'evidence'), exist_ok=True)
 
-    with open(os.path.join(VERIF, 'evidence', mod.ID + '.json'), 'w') as f:
-        json.dump(evidence, f, indent=1, default=str)
+        with open(os.path.join(VERIF, 'evidence', mod.ID + '.json'),
+                  'w') as f:
+            json.dump(evidence, f, indent=1, default=str)
 
     for entry in known_hit.values():
         print('KNOWN-FINDING: property=%s %s' % (mod.ID, entry['what']))
